@@ -209,7 +209,12 @@ def cases(rng, tier):
         yield dict(kind="session", session=tc.gen_session(rng, undisciplined=(k % 10 == 9)))
     for _ in range(12 * N):
         ms = fieldio.gen_mesh_spec(rng, ndim=rng.choice([1, 2, 3, 3, 4]), max_cells=60, nmax=5)
-        yield dict(kind="persist", mesh=ms, subs=tc.gen_subs(rng, ms, rng.randint(1, 3)), fmt=rng.choice(["json", "h5"]),
+        # names whose insertion order is not their sorted order (capitals, digits, non-ASCII): a file that stores the names
+        # and the boxes separately must keep them paired
+        subs = tc.gen_subs(rng, ms, rng.randint(1, 3))
+        if rng.random() < 0.7:
+            subs = [(nm, a, b) for nm, (_, a, b) in zip(rng.sample(["top", "bottom", "zone_2", "zone_10", "Z", "a", "\u00dc", "mid"], len(subs)), subs)]
+        yield dict(kind="persist", mesh=ms, subs=subs, fmt=rng.choice(["json", "h5"]),
                    intcorners=rng.random() < 0.3)
     for _ in range(20 * N):
         ms = fieldio.gen_mesh_spec(rng, ndim=rng.choice([1, 2, 3]), max_cells=80, nmax=6, names=False)
